@@ -86,6 +86,41 @@ class RecRT(NullRT):
         self.events.append(("ref", data))
 
 
+class SimHang(KeyboardInterrupt):
+    """a single-process simulated run slept longer than its budget of simulated time"""
+
+
+class SoloRT(RecRT):
+    """Simulated runtime of a run that has no other actor: virtual clock, sleeps cost
+    nothing, and sleeping for more than `limit` simulated seconds is a hang verdict
+    (raised as SimHang) instead of a wall-clock timeout."""
+
+    simulated = True
+    name = "solo"
+    root = None
+    chunk_writes = False
+    in_rt = False
+    uuid_salt = "solo"
+
+    def __init__(self, limit=300.0):
+        super().__init__()
+        self._now = EPOCH
+        self.slept = 0.0
+        self.limit = limit
+        self.hung = False
+
+    def now(self):
+        return self._now
+
+    def sleep(self, dt):
+        dt = max(0.0, float(dt))
+        self._now += dt
+        self.slept += dt
+        if self.slept > self.limit:
+            self.hung = True
+            raise SimHang(f"slept {self.slept:.0f} simulated seconds")
+
+
 class ChildRT:
     """Runtime of a lockstep child: every seam is a message to the controller."""
 
@@ -353,8 +388,13 @@ def _rebuild_stat(st):
     return cls(tuple(tup), dct)
 
 
+STAT_HOOK = None  # optional: fn(st) -> st, simulated FS clock for tracked inodes (C09)
+
+
 def _sim_os_stat(path, *, dir_fd=None, follow_symlinks=True):
     st = real_os_stat(path, dir_fd=dir_fd, follow_symlinks=follow_symlinks)
+    if STAT_HOOK is not None:
+        st = STAT_HOOK(st)
     if RT is not None and RT.simulated and not isinstance(path, int) and _is_lock(path):
         return _rebuild_stat(st)
     return st
@@ -362,6 +402,8 @@ def _sim_os_stat(path, *, dir_fd=None, follow_symlinks=True):
 
 def _sim_os_lstat(path, *, dir_fd=None):
     st = real_os_lstat(path, dir_fd=dir_fd)
+    if STAT_HOOK is not None:
+        st = STAT_HOOK(st)
     if RT is not None and RT.simulated and _is_lock(path):
         return _rebuild_stat(st)
     return st
@@ -369,6 +411,8 @@ def _sim_os_lstat(path, *, dir_fd=None):
 
 def _sim_os_fstat(fd):
     st = real_os_fstat(fd)
+    if STAT_HOOK is not None:
+        st = STAT_HOOK(st)
     if fd in _lock_fds and RT is not None and RT.simulated:
         return _rebuild_stat(st)
     return st
@@ -395,6 +439,20 @@ def _sim_uuid4():
         f"{getattr(rt, 'uuid_salt', '')}/{rt.name}/{_uuid_counter[0]}".encode()
     ).hexdigest()[:32]
     return _FakeUUID(h)
+
+
+def restamp(st, mtime_ns, ctime_ns):
+    """os.stat_result with replaced modification / change times"""
+    cls, (tup, dct) = st.__reduce__()
+    tup = list(tup)
+    tup[8] = mtime_ns // 1_000_000_000
+    tup[9] = ctime_ns // 1_000_000_000
+    dct = dict(dct)
+    dct["st_mtime"] = mtime_ns / 1e9
+    dct["st_ctime"] = ctime_ns / 1e9
+    dct["st_mtime_ns"] = mtime_ns
+    dct["st_ctime_ns"] = ctime_ns
+    return cls(tuple(tup), dct)
 
 
 class SimDateTime(_dt.datetime):
@@ -451,9 +509,24 @@ def install(rt, *, patch_time=True):
     import pydra.engine.submitter as _sub
     import pydra.engine.job as _job
 
+    import pydra.utils.hash as _hash
+
+    _hash.datetime = SimDateTime
     _sub.datetime = SimDateTime
     _job.datetime = SimDateTime
     _job.uuid4 = _sim_uuid4
+    import pydra.utils.messenger as _msg
+    import pydra.engine.audit as _audit
+
+    _real_gen_uuid = _msg.gen_uuid
+
+    def _gen_uuid():
+        if RT is not None and RT.simulated:
+            return _sim_uuid4().hex
+        return _real_gen_uuid()
+
+    _msg.gen_uuid = _gen_uuid
+    _audit.gen_uuid = _gen_uuid
 
 
 def set_rt(rt):
